@@ -58,6 +58,7 @@ func checkC15(r *Report) {
 	declaredWinsRule(r, p, "C15.d/DECLARED-WINS")
 	nIC := interpolateCoverRule(r, p, "C15.e/INTERPOLATE-COVER", "Dependency")
 	r.floor("C15.e/INTERPOLATE-COVER", "interpolatable fields reachable from maven.Dependency", nIC, 9)
+	allCriteriaRule(r, p, "C15.f/ALL-CRITERIA")
 }
 
 // declaredWinsRule: when ProcessDependencies injects dependency management
